@@ -83,7 +83,7 @@ def fresh(tracer):
     from pedal.core.submission import Submission
     from pedal.sandbox.sandbox import Sandbox
     report = Report()
-    report.contextualize(Submission(files={'answer.py': 'pass', 'notes.txt': 'n'}, main_file='answer.py', main_code='pass'))
+    report.contextualize(Submission(files={'answer.py': 'pass', 'notes.txt': 'n', 'picture.png': b'\x89PNG\x00\x01'}, main_file='answer.py', main_code='pass'))
     sb = Sandbox(report=report)
     if tracer != 'none':
         sb.tracer_style = tracer
